@@ -85,7 +85,12 @@ def all_params(spec, cspec):
     """Parameters of the generated __init__, parents' first, required first."""
     ps = []
     if cspec.get('base'):
-        ps.extend(all_params(spec, class_by_name(spec, cspec['base'])))
+        redef = cspec.get('redef') or {}
+        for p in all_params(spec, class_by_name(spec, cspec['base'])):
+            if p['n'] in redef and p.get('d') is not None:
+                # the subclass gives an inherited parameter another default
+                p = dict(p, d={'v': redef[p['n']]})
+            ps.append(p)
     ps.extend(cspec.get('params', []))
     req = [p for p in ps if p.get('d') is None]
     opt = [p for p in ps if p.get('d') is not None]
